@@ -146,6 +146,12 @@ def check(ctx, rep):
                   and fls.knows(a, "c == b'\\x00'", True) and a.lineno < guard[0].lineno]
         rep.ob('scan.mode-ends-with-the-line', 'skip_to leaves `%s` mode at the end of the line, before the bytes of the mode are skipped' % m_, len(resets) >= 1,
                'once entered, the mode lasts to the end of the program: DATA statements after a remark (or an unclosed quote) are never found', ctx.where(st_))
+    # the modes exclude each other: inside a string literal a byte that equals the REM token is data, so remark mode is entered
+    # only outside a literal (a quote inside a remark does not matter: the remark lasts to the end of the line anyway)
+    rem_on = [a for a in own_nodes(st_) if isinstance(a, ast.Assign) and norm(a.targets[0]) == 'rem' and norm(a.value) == 'True']
+    rep.ob('scan.remark-not-inside-literal', 'skip_to enters remark mode only outside a string literal',
+           len(rem_on) == 1 and (fls.knows(rem_on[0], 'literal', False) or fls.knows(rem_on[0], 'not literal', True)),
+           'a byte &H8F inside a quoted string starts a remark: the rest of the line, DATA statements included, is skipped', ctx.where(st_))
     # the search looks at the *keyword* of each statement: blanks after the separator are skipped first
     # (`10 PRINT 1: DATA 2`), and the position is put back to the start of the keyword
     stt = ctx.fn('pcbasic/basic/base/codestream.py:TokenisedStream.skip_to_token')
@@ -218,6 +224,8 @@ def variants(ctx):
            rd(lambda fn: mu.remove_stmt(fn, mu.text_is('name = self._memory.complete_name(name)'))), expect='names.sigil-read-from-completed-name'),
         Va('data-error-reported-from-the-old-data-pointer', 'break', INTERP,
            rd(lambda fn: mu.replace_expr(fn, mu.text_is('self._program_code.seek(data_pos)'), 'self._program_code.seek(self.data_pos)')), expect='read.type-error-names-data-line'),
+        Va('remark-token-honoured-inside-literals', 'break', 'pcbasic/basic/base/codestream.py',
+           lambda tree: mu.replace_expr(mu.find_def(tree, 'TokenisedStream.skip_to'), mu.text_is('c == tk.REM and (not literal)'), 'c == tk.REM'), expect='scan.remark-not-inside-literal'),
         Va('no-search-for-next-data', 'break', INTERP, rd(lambda fn: mu.remove_stmt(fn, lambda st: isinstance(st, ast.If) and 'skip_to_token' in norm(st) and 'END_STATEMENT' in norm(st.test))), expect='read.finds-next-data'),
         Va('bad-number-advances-pointer', 'break', INTERP, rd(_advance_always), expect='read.type-error'),
         Va('bad-number-error-at-read-line', 'break', INTERP,
